@@ -388,6 +388,15 @@ Theorem C18_heap_gen_refines : forall (flag : bool) h F f t tf tt,
 Proof. exact generate_refines. Qed.
 Print Assumptions C18_heap_gen_refines.
 
+(** "a NEW last root": under the invariant the last root of a forest is found as a root under its identity, and
+    that identity occurs nowhere in the rest of the forest (its blocks are new: [C18_heap_gen_ledger]) *)
+Theorem C18_heap_gen_result_is_new_root : forall h G r,
+  MInv h (G ++ [r]) -> find_root (tid r) (G ++ [r]) = Some r /\ tid r ∉ ids G.
+Proof.
+  exact (fun h G r I => conj (find_root_last G r (proj1 (last_root_fresh h G r (mi_wf _ _ I))))
+                             (proj2 (last_root_fresh h G r (mi_wf _ _ I)))).
+Qed.
+
 (** the public functions are the two case modes of it, as on the value level *)
 Theorem C18_heap_gen_entry_points : forall oracle from to,
   GenMergeHeapDefs.cJSONUtils_GenerateMergePatch oracle from to = generate_merge_patch oracle from to false /\
